@@ -52,6 +52,11 @@ pub struct History {
     pub ops: Vec<HOp>,
     pub points: Vec<PointSpec>,
     pub anchors: Vec<Vec<f64>>,
+    /// data far from the origin: every anchor of the input space (and with it every hyperplane planted through an
+    /// anchor, every test input and the box in which regions are judged) is translated by 2^shift along all axes
+    /// (shift in 20..=30; 0 = none).  Biases of order 1e6..1e9 next to coefficients of order 1.
+    #[serde(default)]
+    pub shift: i8,
 }
 
 pub fn project_aff(a: &Aff, out: usize, inn: usize) -> Aff {
@@ -116,6 +121,8 @@ pub struct HState {
     pub in_dim: usize,
     pub out_dim: usize,
     pub anchors: Vec<Vec<f64>>,
+    /// translation of the input-space data (0 = none)
+    pub shift: f64,
     /// false once the reference became too large to track (only well-formedness is checked then)
     pub tracking: bool,
 }
@@ -136,7 +143,12 @@ pub fn dim_of(sel: u8) -> usize {
 
 pub fn init(h: &History) -> Result<HState, Failure> {
     let n = h.in_dim;
-    let anchors: Vec<Vec<f64>> = h.anchors.iter().map(|a| project_vec(a, n)).collect();
+    let t_off = if h.shift > 0 { 2f64.powi(h.shift.clamp(1, 40) as i32) } else { 0.0 };
+    let sh = |a: Vec<f64>| -> Vec<f64> { a.into_iter().map(|v| v + t_off).collect() };
+    let anchors: Vec<Vec<f64>> = h.anchors.iter().map(|a| sh(project_vec(a, n))).collect();
+    if t_off != 0.0 {
+        crate::lp::set_box_center(Some(vec![crate::exact::Q::from_f64(t_off); n]));
+    }
     let (t, r, out) = match &h.ctor {
         Ctor::New => (must("AffTree::new", || AffTree::<2>::new(n))?, Ref::leaf(AffQ::identity(n)), n),
         Ctor::FromAff(a) => {
@@ -147,6 +159,7 @@ pub fn init(h: &History) -> Result<HState, Failure> {
         Ctor::FromPoly { p, ft, ff } => {
             let out = dim_of(h.out0);
             let mut p = project_poly(p, n);
+            p.anchors = p.anchors.into_iter().map(sh).collect();
             p.anchors.extend(anchors.iter().cloned());
             if p.rows.is_empty() {
                 p.rows.push(RowSpec::Axis { axis: 0, neg: false, b: 1.0 });
@@ -167,18 +180,22 @@ pub fn init(h: &History) -> Result<HState, Failure> {
             let dim = n.max(s.min_dim());
             // schema trees have in_dim = dim; histories start in that dimension
             let t = must("schema constructor", || s.build(dim))?;
-            let st = HState { t, r: s.reference(dim), in_dim: dim, out_dim: s.out_dim(dim), anchors: h.anchors.iter().map(|a| project_vec(a, dim)).collect(), tracking: s.is_exact() };
+            if t_off != 0.0 {
+                crate::lp::set_box_center(Some(vec![crate::exact::Q::from_f64(t_off); dim]));
+            }
+            let st = HState { t, r: s.reference(dim), in_dim: dim, out_dim: s.out_dim(dim), anchors: h.anchors.iter().map(|a| sh(project_vec(a, dim))).collect(), shift: t_off, tracking: s.is_exact() };
             return Ok(st);
         }
         Ctor::Tree(ts) => {
             let out = dim_of(h.out0);
             let mut ts = project_tree(ts, n, out);
+            ts.anchors = ts.anchors.into_iter().map(sh).collect();
             ts.anchors.extend(anchors.iter().cloned());
             let rn = ts.resolve(&[]);
             (rn.build::<2>(&ts.order, &ts.junk), rn.to_ref(), out)
         }
     };
-    Ok(HState { t, r, in_dim: n, out_dim: out, anchors, tracking: true })
+    Ok(HState { t, r, in_dim: n, out_dim: out, anchors, shift: t_off, tracking: true })
 }
 
 fn ref_small(r: &Ref) -> bool {
@@ -254,6 +271,8 @@ pub fn step(st: &mut HState, op: &HOp) -> Result<StepInfo, Failure> {
             let is_add = matches!(op, HOp::Add { .. });
             let images: Vec<Vec<f64>> = vec![];
             let mut ts = project_tree(b, n, st.out_dim);
+            let t_off = st.shift;
+            ts.anchors = ts.anchors.into_iter().map(|a| a.into_iter().map(|v| v + t_off).collect()).collect();
             ts.anchors.extend(st.anchors.iter().cloned());
             let rn = ts.resolve(&images);
             info.partial_operand = !rn.is_total();
@@ -320,7 +339,18 @@ pub fn step(st: &mut HState, op: &HOp) -> Result<StepInfo, Failure> {
 }
 
 pub fn inputs_of(h: &History, st: &HState) -> Vec<Vec<Q>> {
-    h.points.iter().map(|p| qv(&project_vec(&p.resolve(&st.anchors, st.in_dim), st.in_dim))).collect()
+    h.points
+        .iter()
+        .map(|p| {
+            let mut v = project_vec(&p.resolve(&st.anchors, st.in_dim), st.in_dim);
+            if st.shift != 0.0 && matches!(p, PointSpec::Free(_)) {
+                for x in v.iter_mut() {
+                    *x += st.shift;
+                }
+            }
+            qv(&v)
+        })
+        .collect()
 }
 
 // ---------------------------------------------------------------------------------------------
@@ -386,6 +416,7 @@ pub fn history(w: OpWeights, max_ops: usize) -> BoxedStrategy<History> {
         proptest::collection::vec(point_spec(MAXD), 6..12),
         proptest::collection::vec(lattice(MAXD), 1..=3),
     )
-        .prop_map(|(in_dim, out0, ctor, ops, points, anchors)| History { in_dim, out0, ctor, ops, points, anchors })
+        .prop_flat_map(|(in_dim, out0, ctor, ops, points, anchors)| (Just((in_dim, out0, ctor, ops, points, anchors)), prop_oneof![24 => Just(0i8), 1 => 20i8..=30]))
+        .prop_map(|((in_dim, out0, ctor, ops, points, anchors), shift)| History { in_dim, out0, ctor, ops, points, anchors, shift })
         .boxed()
 }
